@@ -29,7 +29,7 @@ def tokenize(source: str):
         token = field(scanner, ctx) or \
             repeater_placeholder(scanner) or \
             repeater_number(scanner) or \
-            repeater(scanner) or \
+            (repeater(scanner) if is_allowed_repeater(ch, ctx) and not ctx['quote'] else None) or \
             white_space(scanner) or \
             literal(scanner, ctx) or \
             operator(scanner) or \
